@@ -504,18 +504,94 @@ func InstrsOf(fn *ssa.Function, f func(ssa.Instruction)) {
 	}
 }
 
-// Returns lists the Return instructions of fn.
-func Returns(fn *ssa.Function) []*ssa.Return {
-	var out []*ssa.Return
+// Ret is a logical return site: the Return instruction with its result values resolved through
+// the result spill slots that go/ssa introduces in functions with defer statements
+// (`*slot = v; rundefers; t = *slot; return t`).
+type Ret struct {
+	Instr   *ssa.Return
+	Results []ssa.Value
+}
+
+func (r Ret) Block() *ssa.BasicBlock { return r.Instr.Block() }
+func (r Ret) Pos() token.Pos        { return r.Instr.Pos() }
+
+// Returns lists the logical return sites of fn (the synthetic return of the recover block excluded).
+func Returns(fn *ssa.Function) []Ret {
+	var out []Ret
 	for _, b := range fn.Blocks {
-		if len(b.Instrs) == 0 {
+		if len(b.Instrs) == 0 || b == fn.Recover {
 			continue
 		}
-		if r, ok := b.Instrs[len(b.Instrs)-1].(*ssa.Return); ok {
-			out = append(out, r)
+		r, ok := b.Instrs[len(b.Instrs)-1].(*ssa.Return)
+		if !ok {
+			continue
 		}
+		lr := Ret{Instr: r}
+		for _, res := range r.Results {
+			v := res
+			if u, isLoad := res.(*ssa.UnOp); isLoad && u.Op == token.MUL && u.Block() == b {
+				if a, isAlloc := u.X.(*ssa.Alloc); isAlloc {
+					// last store to the slot in this block before the load
+					var last ssa.Value
+					for _, in := range b.Instrs {
+						if in == ssa.Instruction(u) {
+							break
+						}
+						if st, isSt := in.(*ssa.Store); isSt && st.Addr == ssa.Value(a) {
+							last = st.Val
+						}
+					}
+					if last != nil {
+						v = last
+					}
+				}
+			}
+			lr.Results = append(lr.Results, v)
+		}
+		out = append(out, lr)
 	}
 	return out
+}
+
+// LoopHeaderOf returns the header of the innermost natural loop containing b (nil if none):
+// the nearest dominator of b that b can reach again.
+func LoopHeaderOf(b *ssa.BasicBlock) *ssa.BasicBlock {
+	for d := b; d != nil; d = d.Idom() {
+		// can b reach d through a back edge?
+		seen := map[*ssa.BasicBlock]bool{}
+		work := append([]*ssa.BasicBlock{}, b.Succs...)
+		for len(work) > 0 {
+			x := work[len(work)-1]
+			work = work[:len(work)-1]
+			if x == d {
+				return d
+			}
+			if seen[x] || !d.Dominates(x) {
+				continue
+			}
+			seen[x] = true
+			work = append(work, x.Succs...)
+		}
+	}
+	return nil
+}
+
+// ForAllGuard checks the "test every element, bail out on the first bad one" idiom: the reject
+// edge of test (successor rejectIdx) cannot reach sink, and the loop containing the test cannot be
+// bypassed on the way to sink (its header dominates sink).
+func ForAllGuard(test *ssa.If, rejectIdx int, sink *ssa.BasicBlock) (ok bool, why string) {
+	tb := test.Block()
+	if reach := ReachAvoiding(tb.Succs[rejectIdx], nil); reach[sink] {
+		return false, "the rejecting edge of the test can still reach the sink"
+	}
+	h := LoopHeaderOf(tb)
+	if h == nil {
+		return false, "the test is not inside a loop"
+	}
+	if !h.Dominates(sink) {
+		return false, "the checking loop can be bypassed on the way to the sink"
+	}
+	return true, ""
 }
 
 // Precedes reports whether instruction a is executed before b on every path that executes b,
@@ -577,4 +653,156 @@ func Origins(v ssa.Value) []ssa.Value {
 	}
 	walk(v, 0)
 	return out
+}
+
+// MustPassFrom is MustPass with an explicit start block and additional cut edges (edges that
+// end the execution, e.g. into blocks that exit the process).
+func MustPassFrom(fn *ssa.Function, start, sink *ssa.BasicBlock, atom Atom, extraCut map[Edge]bool) (ok bool, nGuards int, path []int) {
+	pass, ifs := GuardEdges(fn, atom)
+	for e := range extraCut {
+		pass[e] = true
+	}
+	p := PathAvoiding(start, sink, pass)
+	return p == nil, len(ifs), p
+}
+
+// IsNilConst reports whether v is the nil constant.
+func IsNilConst(v ssa.Value) bool {
+	c, ok := v.(*ssa.Const)
+	return ok && c.Value == nil
+}
+
+// NilCompare decomposes `x != nil` / `x == nil` (with leading negations folded in):
+// it returns x and whether the condition is true exactly when x is non-nil.
+func NilCompare(cond ssa.Value) (x ssa.Value, trueWhenNonNil bool, ok bool) {
+	base, neg := StripNot(cond)
+	b, isBin := base.(*ssa.BinOp)
+	if !isBin || (b.Op != token.NEQ && b.Op != token.EQL) {
+		return nil, false, false
+	}
+	switch {
+	case IsNilConst(b.Y):
+		x = b.X
+	case IsNilConst(b.X):
+		x = b.Y
+	default:
+		return nil, false, false
+	}
+	t := b.Op == token.NEQ
+	if neg {
+		t = !t
+	}
+	return x, t, true
+}
+
+// NilGuard builds an atom "pred(x) is nil": the pass edge is the one taken when x == nil.
+func NilGuard(pred func(x ssa.Value) bool) Atom {
+	return func(cond ssa.Value) (bool, bool) {
+		x, nonNilOnTrue, ok := NilCompare(cond)
+		if !ok || !pred(x) {
+			return false, false
+		}
+		return true, !nonNilOnTrue
+	}
+}
+
+// BoolGuard builds an atom "v is true" for a boolean value selected by pred (negations folded).
+func BoolGuard(pred func(x ssa.Value) bool, wantTrue bool) Atom {
+	return func(cond ssa.Value) (bool, bool) {
+		base, neg := StripNot(cond)
+		if !pred(base) {
+			return false, false
+		}
+		// cond true <=> base == !neg
+		return true, wantTrue != neg
+	}
+}
+
+// Compare decomposes a comparison condition (negations folded into the operator where exact):
+// returns op, x, y with op one of EQL NEQ LSS LEQ GTR GEQ. A negated ordered comparison is NOT
+// folded (NaN-safety): negated reports it.
+func Compare(cond ssa.Value) (op token.Token, x, y ssa.Value, negated bool, ok bool) {
+	base, neg := StripNot(cond)
+	b, isBin := base.(*ssa.BinOp)
+	if !isBin {
+		return 0, nil, nil, false, false
+	}
+	switch b.Op {
+	case token.EQL, token.NEQ:
+		op = b.Op
+		if neg {
+			if op == token.EQL {
+				op = token.NEQ
+			} else {
+				op = token.EQL
+			}
+			neg = false
+		}
+		return op, b.X, b.Y, neg, true
+	case token.LSS, token.LEQ, token.GTR, token.GEQ:
+		return b.Op, b.X, b.Y, neg, true
+	}
+	return 0, nil, nil, false, false
+}
+
+// StructLitField resolves the value of field name of a struct value that was built in place
+// (composite literal: `local T (complit)` + field stores + load). ok=false if v is not such a value.
+func StructLitField(v ssa.Value, name string) (ssa.Value, bool) {
+	var al *ssa.Alloc
+	switch x := v.(type) {
+	case *ssa.UnOp:
+		if x.Op != token.MUL {
+			return nil, false
+		}
+		al, _ = x.X.(*ssa.Alloc)
+	case *ssa.Alloc:
+		al = x
+	}
+	if al == nil || al.Referrers() == nil {
+		return nil, false
+	}
+	if _, isStruct := Deref(al.Type()).Underlying().(*types.Struct); !isStruct {
+		return nil, false
+	}
+	var found ssa.Value
+	n := 0
+	for _, r := range *al.Referrers() {
+		fa, ok := r.(*ssa.FieldAddr)
+		if !ok || FieldName(fa.X.Type(), fa.Field) != name {
+			continue
+		}
+		for _, st := range StoresTo(fa) {
+			found = st.Val
+			n++
+		}
+	}
+	if n == 1 {
+		return found, true
+	}
+	if n == 0 {
+		// whole-struct stores into the alloc
+		sts := StoresTo(al)
+		if len(sts) == 1 {
+			return StructLitField(sts[0].Val, name)
+		}
+	}
+	return nil, false
+}
+
+// FieldLoad matches a load of field `name` (FieldAddr+load, or Field) and returns the base.
+func FieldLoad(v ssa.Value, name string) (base ssa.Value, ok bool) {
+	switch x := v.(type) {
+	case *ssa.UnOp:
+		if x.Op != token.MUL {
+			return nil, false
+		}
+		if fa, isFA := x.X.(*ssa.FieldAddr); isFA && FieldName(fa.X.Type(), fa.Field) == name {
+			return fa.X, true
+		}
+	case *ssa.Field:
+		if FieldName(x.X.Type(), x.Field) == name {
+			return x.X, true
+		}
+	}
+	return nil, false
 }
